@@ -565,7 +565,9 @@ ApplyTx(S, x) ==
                       amt |-> per + SumF([f \in {f \in old : f.id = i} |-> f.amt])] : i \in ids}
          IN IF per = 0 THEN S1
             ELSE Owe([S1 EXCEPT !.ip.funds = (@ \ old) \cup new], "iprpc", per * x.months)
-    [] x.a = "ParamChange" -> IF x.pkey = "epochBlocks" THEN [S EXCEPT !.nEb = x.v] ELSE [S EXCEPT !.nEts = x.v]
+    [] x.a = "ParamChange" -> CASE x.pkey = "epochBlocks" -> [S EXCEPT !.nEb = x.v]
+                                 [] x.pkey = "epochsToSave" -> [S EXCEPT !.nEts = x.v]
+                                 [] OTHER -> S      \* e.g. "halfLife" (pairing ReputationHalfLifeFactor): nothing this model tracks
 
 \* Slash: burn a fraction of the validator's bonded tokens and of its unbonding entries, then dualstaking
 \* balances the delegators (provider delegations / self stakes shrink with the validator delegations)
